@@ -213,8 +213,9 @@ CHECKS = {
        "replayed through the real code and the real IR after round n+1 must equal the real IR after round n exactly; a later "
        "round that raises after round 1 succeeded is a failure.",
   design_ref="DESIGN.md section 4, C08",
-  note="Trusted: gamma. Formats covered: class, pydantic, function, argparse, docstring-rest (json_schema and sqlalchemy variants "
-       "are exercised by C05/C06's own second-round checks).",
+  note="Trusted: gamma. Formats covered: class, pydantic, function, argparse, docstring in the three styles (Google/NumPy on the "
+       "signature-legal domain), json_schema and the SQLAlchemy class and Table variants on their own domains (the hybrid "
+       "variant cannot be parsed back at all: C05 finding).",
   technique="TLA+ conversion state machine with an action property, behaviours replayed round by round through the real code"),
  "C02": dict(
   category="model_checking",
